@@ -544,11 +544,12 @@ Section Proofs.
         destruct (header_line_ok_shape (fst e) (count const (snd e)) H3) as [A B].
         unfold line_ok. auto.
     - unfold body_lines. induction St as [|e St IH]; [constructor|].
-      inversion F as [|? ? He F']; subst. cbn [flat_map]. apply Forall_app. split.
-      + destruct (snd (fst e)) as [|k] eqn:Ea; [constructor|].
-        destruct He as (_ & _ & _ & _ & _ & _ & Hrows & _).
-        apply col_lines_ok. intros r Hr. rewrite Ea in Hrows. apply (Hrows r Hr).
-      + apply IH; [exact F'|]. simpl length in L. lia.
+      inversion F as [|? ? He F']; subst. destruct e as [[s a] rows].
+      cbn [flat_map fst snd]. apply Forall_app. split.
+      + destruct He as (_ & _ & _ & _ & _ & _ & Hrows & _). simpl fst in *. simpl snd in *.
+        destruct a as [|k]; [constructor|].
+        apply col_lines_ok. intros r Hr. apply (Hrows r Hr).
+      + apply IH; [exact F'|]. simpl length in L. unfold SimpleColumn.pstore, SimpleColumn.row in *. lia.
   Qed.
 
   Lemma write_listing : forall St,
@@ -559,8 +560,7 @@ Section Proofs.
     match goal with |- context [if ?c then _ else _] => destruct c eqn:E end;
       [apply Z.ltb_lt in E; unfold SimpleColumn.pstore, SimpleColumn.row in *; lia|].
     cbn [ordered].
-    assert (C : forallb (fun e : psym * list (SimpleColumn.row const) =>
-                           (Z.of_nat (snd (fst e)) <=? max_arity) && (count const (snd e) <=? max_facts)) St = true).
+    match goal with |- context [forallb ?f ?l] => assert (C : forallb f l = true) end.
     { apply forallb_forall. intros e He. rewrite Forall_forall in F.
       destruct (F e He) as (_ & _ & _ & _ & H5 & H6 & _).
       apply andb_true_iff. split; apply Z.leb_le; assumption. }
@@ -577,5 +577,60 @@ Section Proofs.
     rewrite scan_unlines by (apply file_lines_ok; assumption).
     unfold read_into. rewrite read_header_ok by assumption.
     rewrite <- (app_nil_r (body_lines St)). apply read_preds_ok. exact F.
+  Qed.
+
+  (* ------------------------------------------ the deterministic option *)
+  Lemma insert_perm : forall {A} (lt : A -> A -> bool) x l, Permutation (insert lt x l) (x :: l).
+  Proof.
+    induction l as [|y l IH]; [apply Permutation_refl|]. simpl. destruct (lt y x).
+    - eapply Permutation_trans; [apply perm_skip, IH | apply perm_swap].
+    - apply Permutation_refl.
+  Qed.
+
+  Lemma isort_perm : forall {A} (lt : A -> A -> bool) l, Permutation (isort lt l) l.
+  Proof.
+    induction l as [|x l IH]; [apply Permutation_refl|]. simpl.
+    eapply Permutation_trans; [apply insert_perm | apply perm_skip, IH].
+  Qed.
+
+  Lemma ordered_length : forall det (St : pstore), length (ordered print fhash det St) = length St.
+  Proof.
+    intros [|] St; [|reflexivity]. unfold ordered. rewrite map_length.
+    apply Permutation_length, isort_perm.
+  Qed.
+
+  Lemma write_ordered : forall V det (St : pstore),
+    write const print fhash V det St = write const print fhash V false (ordered print fhash det St).
+  Proof.
+    intros V det St. unfold write. rewrite ordered_length. reflexivity.
+  Qed.
+
+  (* the facts are the same, whatever the order they are written in *)
+  Lemma ordered_same_facts : forall det (St : pstore) f,
+    In f (facts_of (ordered print fhash det St)) <-> In f (facts_of St).
+  Proof.
+    intros [|] St f; [|reflexivity]. unfold ordered, facts_of.
+    rewrite !in_flat_map. split.
+    - intros [e [He Hf]]. apply in_map_iff in He. destruct He as [e0 [<- He0]].
+      exists e0. split.
+      + eapply Permutation_in; [apply isort_perm | exact He0].
+      + simpl in Hf. apply in_map_iff in Hf. destruct Hf as [r [<- Hr]].
+        apply in_map. eapply Permutation_in; [apply isort_perm | exact Hr].
+    - intros [e [He Hf]].
+      exists (fst e, isort (fact_ltb const print fhash (fst (fst e))) (snd e)). split.
+      + apply in_map_iff. exists e. split; [reflexivity|].
+        eapply Permutation_in; [apply Permutation_sym, isort_perm | exact He].
+      + simpl. apply in_map_iff in Hf. destruct Hf as [r [<- Hr]].
+        apply in_map. eapply Permutation_in; [apply Permutation_sym, isort_perm | exact Hr].
+  Qed.
+
+  Theorem read_write_exact_all : forall (St : pstore) det,
+    Forall pred_ok (ordered print fhash det St) -> Z.of_nat (length St) <= max_num_preds ->
+    exists ls, write const print fhash fixed det St = Some ls /\
+               read_into const const_eqb parse fixed (scan_lines (unlines ls))
+               = Some (facts_of (ordered print fhash det St)).
+  Proof.
+    intros St det F L. rewrite write_ordered. apply read_write_listing; [exact F|].
+    rewrite ordered_length. exact L.
   Qed.
 End Proofs.
